@@ -8,10 +8,10 @@ from harness.framework import Suite
 
 PID = "C06"
 LEAN_MODS = ["SwcVerif.Props.C06", "SwcVerif.Props.C06Gen", "SwcVerif.Props.C06Cut"]
-TRANSLATE_ALGO = ["AlgoTraverse", "AlgoSubtree", "AlgoNode", "AlgoCut"]   # Gen/AlgoSubtree.lean is regenerated on every run from swc_utils/subtree.py (to_sub_topology,
+TRANSLATE_ALGO = ["AlgoTraverse", "AlgoSubtree", "AlgoNode", "AlgoCut", "AlgoShortTip"]   # Gen/AlgoSubtree.lean is regenerated on every run from swc_utils/subtree.py (to_sub_topology,
 # get_subtree_impl and its collecting lambda, propagate_removal and its closure); it calls the traversal generated into Gen/AlgoTraverse.lean;
 # Gen/AlgoCut.lean from tree_utils.py (to_subtree, cut_tree in both overloads with the closures _enter / _leave that call the user's callback)
-DRIVER_FILES = ["SwcVerif/Model/AlgoRunSubtree.lean", "SwcVerif/Model/AlgoRunCut.lean"]
+DRIVER_FILES = ["SwcVerif/Model/AlgoRunSubtree.lean", "SwcVerif/Model/AlgoRunCut.lean", "SwcVerif/Model/AlgoRunShortTip.lean"]
 THEOREMS = [
     "C06.toSubTopology_spec", "C06.toSubTopology_ok_iff", "C06.attrs_preserved", "C06.subtree_nodes", "C06.propagate_marks",
     "C06.removedSet_all", "C06.removedSet_sound", "C06.toSubtree_kept", "C06.cutEnter_removed", "C06.cutLeave_removed",
@@ -502,7 +502,11 @@ class Ops(Suite):
                 warnings.simplefilter("ignore")
                 y = CutByFurcationOrder(as_param(op["m"], pk))(t)
         else:
-            y = CutShortTipBranch(thre=as_param(op["thre"], pk))(t)
+            # every other case hands `__init__` a user callback that records the branches it is called with (compared with the callback state of
+            # the GENERATED `__call__`, op gcuttip)
+            tip_seen = [] if (op["thre"] + t.number_of_nodes()) % 2 == 1 else None
+            tip_kw = {} if tip_seen is None else {"callback": lambda br: tip_seen.append([int(i) for i in br.idx])}
+            y = CutShortTipBranch(thre=as_param(op["thre"], pk), **tip_kw)(t)
         res = {"pid": y.pid().tolist(), "id": y.id().tolist(), "r": [float(v) for v in y.r()], "type": y.type().tolist(),
                "xyz": y.xyz().astype(float).tolist(), "input_unchanged": bool(all(np.array_equal(before[c], t.get_ndata(c)) for c in before)),
                "keys": sorted(str(c) for c in y.keys()),
@@ -517,6 +521,8 @@ class Ops(Suite):
         if k == "subtree" and op["n"] == 0 and case["tree"]["types"][0] == 1:
             res["neurites"] = [[float(v) for v in s.r()] for s in t.get_neurites()]
             res["dendrites"] = [[float(v) for v in s.r()] for s in t.get_dendrites()]
+        if k == "cuttip":
+            res["tipcb"] = tip_seen
         if k == "cuttype":
             from swcgeom.core.tree_utils import is_binary_tree
             from swcgeom.transforms import CutAxonTree, CutDendriteTree
@@ -582,6 +588,12 @@ class Ops(Suite):
             out.append((f"g{k} {a}", want))
         elif case["op"]["op"] == "cutattr":
             out.append((f"{'gcutenter' if op['form'] == 'enter' else 'gcutleaveset'} {a}", want))
+        elif case["op"]["op"] == "cuttip":
+            # CutShortTipBranch.__call__ as GENERATED on this run (its `_leave` handed to the generated traversal, the recording lambda on the
+            # callback list, the generated to_subtree); with a user callback its calls (the branches, in order) are compared as well
+            seen = res.get("tipcb")
+            out.append((f"gcuttip {a} cb={0 if seen is None else 1}",
+                        want + " / " + ";".join(gen.ints(b).replace("_", "") for b in (seen or []))))
         return out
 
     def oracle(self, case, res):
